@@ -330,7 +330,11 @@ def fault_record_index(case, files_orig, files_faulted):
         try:
             pf = _plain_of(p, files_faulted[p])
         except fmt.FormatError:
-            continue  # truncated container
+            # damaged container: only what a streaming decoder can still get out of it matters
+            cont = fmt.container_of(p) or next((e for m, e in _MAGIC if files_faulted[p].startswith(m)), "")
+            pf = fmt.decompress_prefix(cont, files_faulted[p])
+            if po.startswith(pf):
+                continue  # a clean prefix of the original: no bound needed
         if po == pf:
             continue
         L = C.first_diff(po, pf)
